@@ -100,7 +100,6 @@ package template
 
 // ---- C02: the interface that is mocked is the one that was looked up ---------------------------
 //@ func (Registry).LookupInterface props=C02
-//@   requires r.srcPkg != nil
 //@   let obj = r.srcPkg.Types.Scope().Lookup(name)
 //@   ensures#missing obj == nil ==> err != nil
 //@   ensures#notiface obj != nil && !types.IsInterface(obj.Type()) ==> err != nil
